@@ -93,8 +93,11 @@ def _convert(seed):
                     del calls[:]
                     if kind == "COAXIAL":
                         _, _, rc, rp = orig.concentric_tube_volumes()
+                        k_outer = pipe.k[1]            # Pipe.k = [inner pipe, outer pipe]
+                        target_ref = 1.0 / (orig.h_f_a_in * 2.0 * math.pi * r_oi) + math.log(r_oo / r_oi) / (2.0 * math.pi * k_outer)
                     else:
                         _, _, rc, rp = orig.u_tube_volumes()
+                        target_ref = 1.0 / (orig.h_f * 4 * math.pi * (2.0 * r_in) ** 2) + math.log(r_out / r_in) / (4 * 2.0 * math.pi * pipe.k)
                     eq = orig.to_single()
                     rb0 = orig.calc_effective_borehole_resistance()
                     rb1 = eq.calc_effective_borehole_resistance()
@@ -109,7 +112,7 @@ def _convert(seed):
             vf1 = 2 * math.pi * eq.pipe.r_in**2
             vp1 = 2 * math.pi * (eq.pipe.r_out**2 - eq.pipe.r_in**2)
             ev = [
-                {"e": "Volumes", "dvf_ppm": ppm(vf1, vf0), "dvp_ppm": ppm(vp1, vp0)},
+                {"e": "Volumes", "dvf_ppm": ppm(vf1, vf0), "dvp_ppm": ppm(vp1, vp0), "target_ppm": ppm(rc + rp, target_ref)},
                 {"e": "Radii"},
                 {"e": "SolvePipeK", "oc": calls[0]["oc"], "dev_ppm": ppm(rfp1, rc + rp), "kind": kind},
                 {"e": "SolveGroutK", "oc": calls[1]["oc"], "rb_dev_ppm": ppm(rb1, rb0)},
@@ -195,7 +198,7 @@ def run() -> int:
 
 def selfcheck_binding():
     """Corrupt one recorded field / drop one event and expect the trace validator to reject (used by ./check selftest)."""
-    good = [{"e": "Volumes", "dvf_ppm": 0, "dvp_ppm": 0}, {"e": "Radii"}, {"e": "SolvePipeK", "oc": "Bracketed", "dev_ppm": 3, "kind": "COAXIAL"},
+    good = [{"e": "Volumes", "dvf_ppm": 0, "dvp_ppm": 0, "target_ppm": 0}, {"e": "Radii"}, {"e": "SolvePipeK", "oc": "Bracketed", "dev_ppm": 3, "kind": "COAXIAL"},
             {"e": "SolveGroutK", "oc": "Bracketed", "rb_dev_ppm": 40}, {"e": "End"}]
     bad1 = json.loads(json.dumps(good))
     bad1[3]["rb_dev_ppm"] = 4000
